@@ -145,6 +145,19 @@ def run_engine(ob, cubes, workdir, tag):
     return o
 
 
+def run_validation(ob, workdir):
+    """translator validation: a few cubes of the obligation are run again with -validate (sampled concrete inputs, engine-side
+    evaluation of the harness' observed outputs), the driver then runs the natively compiled harness on the same values"""
+    cubes = ob.get("cubes") or [{}]
+    k = ob.get("validate_cubes", 6)
+    if k <= 0:
+        return []
+    step = max(1, len(cubes) // k)
+    sel = cubes[::step][:k]
+    vob = dict(ob, validate=ob.get("validate_samples", 2), name=ob["name"] + ".validate", maporder="fixed")
+    return [run_engine(vob, sel, workdir, vob["name"])]
+
+
 def run_obligation(ob, workdir):
     cubes = ob.get("cubes") or [{}]
     mx = int(os.environ.get("VERIF_MAXCUBES", "0"))
@@ -197,6 +210,7 @@ def check(prop, tier, obligations, level="model_checking", seed=0, extra_assumpt
             ob = dict(ob)
             ob.setdefault("seed", seed + 1)
             outs = run_obligation(ob, workdir)
+            vouts = run_validation(ob, workdir)
             ob_rec = dict(obligation=ob["name"], harness="%s.%s" % (ob["pkg"], ob["func"]), bounds=ob.get("bounds", ""),
                           cubes=len(ob.get("cubes") or [{}]), queries=0, nontrivial=0, sat=0, unsat=0, unknown=0,
                           solver_secs=0.0, encode_secs=0.0, wall_secs=round(max([o.get("secs", 0) for o in outs] + [0]), 1),
@@ -211,6 +225,21 @@ def check(prop, tier, obligations, level="model_checking", seed=0, extra_assumpt
                 for r in o["runs"]:
                     tot["cubes"] += 1
                     if r["status"] != "ok":
+                        if ob.get("hang_probe") and "encode-t" in r.get("message", ""):
+                            # the engine exhausted its (generous) budget on a concrete cube: candidate hang / runaway memory.
+                            # Confirmed natively under a watchdog; only a reproduced hang is reported.
+                            rdir = os.path.join(VERIF, "replays", prop, "%s-hang-%d" % (ob["name"], len(violations)))
+                            res = rp.replay(ob["pkg"], ob["func"], r["consts"], {}, repeat=1, timeout=ob.get("hang_timeout", 30), keep_dir=rdir)
+                            tot["replays"] += 1
+                            if res["outcome"] in ("timeout", "crash"):
+                                tot["replays_reproduced"] += 1
+                                meta = dict(property=prop, obligation=ob["name"], pkg=ob["pkg"], func=ob["func"], kind="unwind",
+                                            label="Layout does not return within the time/memory budget (engine budget exhausted, native run %s)" % res["outcome"],
+                                            consts=r["consts"], values={}, native=dict((k, v) for k, v in res.items() if k != "raw"), reproduced=True)
+                                os.makedirs(rdir, exist_ok=True)
+                                json.dump(meta, open(os.path.join(rdir, "meta.json"), "w"), indent=1)
+                                violations.append(dict(meta, replay=rdir))
+                                continue
                         inconclusive.append(dict(obligation=ob["name"], cube=r["consts"], reason=r["status"] + ": " + r.get("message", "")[:300]))
                         continue
                     if r["n_queries"] == 0 or not any(q["kind"] == "reach" and q["verdict"] == "sat" for q in (r["queries"] or [])):
@@ -310,24 +339,26 @@ def check(prop, tier, obligations, level="model_checking", seed=0, extra_assumpt
                         else:
                             unconfirmed.append(dict(obligation=ob["name"], label=q["label"], cube=r["consts"], values=vals, native=res["outcome"]))
                             shutil.rmtree(rdir, ignore_errors=True)
-                    # translator validation samples
-                    for s in r.get("validation_samples") or []:
-                        res = rp.replay(ob["pkg"], ob["func"], r["consts"], s["values"], repeat=1, timeout=120)
-                        got = re.search(r"VH-OBSERVED (\[.*\])", res.get("raw", ""))
-                        exp = "[" + " ".join(json.dumps(x) for x in s["observed"]) + "]"
-                        if res["outcome"] == "assume-violated" or got is None:
+            for o in vouts:
+                if o.get("status") != "ok":
+                    continue
+                for r in o["runs"]:
+                    for smp in r.get("validation_samples") or []:
+                        if not smp.get("observed"):
                             continue
-                        if s.get("has_picks"):
-                            # map order / RNG not controllable natively: only count, never fail
-                            if got.group(1) == exp:
-                                tot["validated"] += 1
+                        res = rp.replay(ob["pkg"], ob["func"], r["consts"], smp["values"], repeat=1, timeout=120)
+                        got = re.search(r"VH-OBSERVED (\[.*\])", res.get("raw", ""))
+                        exp = "[" + " ".join(json.dumps(x) for x in smp["observed"]) + "]"
+                        if res["outcome"] == "assume-violated" or got is None:
                             continue
                         if got.group(1) == exp:
                             tot["validated"] += 1
+                        elif smp.get("has_picks"):
+                            pass  # map order / RNG picks cannot be forced natively
                         else:
                             tot["validation_mismatch"] += 1
                             engine_errors.append("translator validation mismatch in %s cube %s values %s: engine %s native %s" % (
-                                ob["name"], r["consts"], s["values"], exp[:600], got.group(1)[:600]))
+                                ob["name"], r["consts"], smp["values"], exp[:700], got.group(1)[:700]))
             ob_rec["solver_secs"] = round(ob_rec["solver_secs"], 2)
             ob_rec["encode_secs"] = round(ob_rec["encode_secs"], 2)
             samples.append(ob_rec)
